@@ -1,35 +1,200 @@
-"""Side-car contracts for graphql/language/parser.py (C01, C09)."""
+"""Side-car contracts for graphql/language/parser.py (C01, C09).
+
+Every method of Parser gets a contract, generated from the class as it is in the current tree
+(names, parameters and return annotations are read by introspection; nothing is copied):
+
+  the parser frame        raises only GraphQLSyntaxError; writes only the lexer cursor
+                          (token, last_token, line, line_start, the token chain links) and
+                          _token_counter
+  the token limit         _token_counter never decreases, and whenever a call counted a token and
+                          a limit is set, the counter is within the limit when the call returns
+
+Helpers that only look (peek, peek_description, loc, unexpected) have an empty frame and raise
+nothing.  The higher-order helpers (any, many, optional_many, delimited_many) take a parser
+function: at each call site the argument is checked to be a method of the same parser under the
+generic contract PFN (pyvc/hof.py), and inside the helpers a call of the parameter follows PFN.
+"""
+import inspect
 
 P = "graphql.language.parser"
 LX = "graphql.language.lexer"
+SCL = "graphql.language.schema_coordinate_lexer"
+
+PFRAME = ["self._token_counter", "self.token", "self.last_token", "self.line", "self.line_start",
+          "self.next", "self.prev"]
+TOKLIM = [
+    "self._token_counter >= old(self._token_counter)",
+    "implies(self._max_tokens is not None and self._token_counter > old(self._token_counter),"
+    " self._token_counter <= self._max_tokens)",
+]
+LOOKERS = {"peek", "peek_description", "loc", "unexpected"}
+PARAM_SPECS = {
+    "is_const": "bool", "_is_const": "bool", "kind": "atom:TokenKind",
+    "open_kind": "atom:TokenKind", "close_kind": "atom:TokenKind",
+    "delimiter_kind": "atom:TokenKind", "parse_fn": "pfn", "value": "str",
+    "start_token": "obj:Token", "at_token": "opt:obj:Token",
+}
+
+
+def _ret_spec(w, ann):
+    import graphql.language.ast as A
+    a = (ann or "").strip().strip("'\"")
+    if a in ("None", ""):
+        return None
+    if a == "bool":
+        return "bool"
+    if a == "Token":
+        return "obj:Token"
+    if a == "OperationType":
+        return "atom:OperationType"
+    if a == "GraphQLError":
+        return "exc:GraphQLSyntaxError"
+    if a.startswith("tuple[") or a.startswith("Location"):
+        return "opaque"
+    opt = False
+    parts = [x.strip() for x in a.split("|")]
+    if "None" in parts:
+        opt = True
+        parts = [x for x in parts if x != "None"]
+    cls = getattr(A, parts[0], None) if len(parts) == 1 else None
+    name = parts[0] if isinstance(cls, type) else "Node"
+    w.alias(name, f"graphql.language.ast.{name}")
+    return ("opt:" if opt else "") + "ref:" + name
 
 
 def install(w):
+    from graphql.language.parser import Parser
     w.alias("Parser", f"{P}.Parser")
+    w.alias("OperationType", "graphql.language.ast.OperationType")
+    w.alias("SchemaCoordinateLexer", f"{SCL}.SchemaCoordinateLexer")
     w.shape("Parser", _lexer="obj:Lexer", _max_tokens="opt:int", _token_counter="int",
-            _no_location="bool")
+            _no_location="bool", _experimental_fragment_arguments="bool",
+            _experimental_directives_on_directive_definitions="bool")
+    w.shape("StringValueNode", value="str", block="bool", kind="str", loc="opaque")
+
     # Lexer.advance/lookahead: assumed here (their loop over the linked token list needs an object
-    # invariant of the chain); the readers they call are verified (contracts/lexer.py)
+    # invariant of the chain: "the cursor line/line_start belong to the end of the last token of
+    # the chain", an inductive property of a linked structure that is outside the engine's
+    # reach); the readers they call are verified (contracts/lexer.py)
     w.contract(f"{LX}.Lexer.advance", returns="field:token",
                ensures=["result.kind != TokenKind.COMMENT", "result.kind != TokenKind.SOF",
                         "0 <= result.start <= result.end"],
                raises=["GraphQLSyntaxError"],
-               modifies=["self.token", "self.last_token", "self.line", "self.line_start"],
+               modifies=["self.token", "self.last_token", "self.line", "self.line_start",
+                         "self.next", "self.prev"],
                assumed=True)
     w.contract(f"{LX}.Lexer.lookahead", returns="obj:Token",
                ensures=["result.kind != TokenKind.COMMENT", "0 <= result.start <= result.end"],
-               raises=["GraphQLSyntaxError"], modifies=["self.line", "self.line_start"],
-               assumed=True)
-    # token limit: every non-EOF token is counted once; the limit n accepts exactly counter <= n
-    w.contract(f"{P}.Parser.advance_lexer",
-               ensures=["self._token_counter == old(self._token_counter)"
-                        " + ite(self._lexer.token.kind is TokenKind.EOF, 0, 1)",
-                        "implies(self._max_tokens is not None and self._lexer.token.kind is not TokenKind.EOF,"
-                        " self._token_counter <= self._max_tokens)"],
                raises=["GraphQLSyntaxError"],
-               on_raise={"GraphQLSyntaxError": [
-                   "token_advanced_or_limit(self)"]},
-               modifies=["self._token_counter", "self.token", "self.last_token", "self.line",
-                         "self.line_start"],
-               props={"C09", "C01"})
-    w.spec_funcs["token_advanced_or_limit"] = lambda it, s: __import__("pyvc.sym", fromlist=["VBool"]).VBool(True)
+               modifies=["self.line", "self.line_start", "self.next", "self.prev"],
+               assumed=True)
+
+    # the restricted lexer of schema coordinates: same frame as Lexer.read_next_token
+    w.contract(f"{SCL}.SchemaCoordinateLexer.read_next_token", params={"start": "int"},
+               returns="obj:Token",
+               requires=["0 <= start <= len(self.source.body)"],
+               ensures=["start <= result.start", "result.start <= result.end",
+                        "result.end <= len(self.source.body)",
+                        "implies(result.kind == TokenKind.EOF, result.start == len(self.source.body))",
+                        "implies(result.kind != TokenKind.EOF, result.end > result.start)",
+                        "result.kind != TokenKind.SOF", "result.kind != TokenKind.COMMENT"],
+               raises=["GraphQLSyntaxError"], modifies=[], props={"C01"})
+
+    # token descriptions used in messages: total
+    w.contract(f"{P}.get_token_kind_desc", params={"kind": "atom:TokenKind"}, returns="str",
+               ensures=[], modifies=[], props={"C01"})
+    w.contract(f"{P}.get_token_desc", params={"token": "obj:Token"}, returns="str",
+               ensures=[], modifies=[], props={"C01"})
+
+    # ---- the generic parser-function contract (what `parse_fn()` may do inside the helpers) ----
+    from pyvc.world import Contract
+    pfn = Contract("PFN", ensures=list(TOKLIM), raises=["GraphQLSyntaxError"],
+                   modifies=list(PFRAME), returns="opaque")
+    w.pfn_contract = (w.fnref(P, "Parser.parse_name"), pfn)
+
+    def is_pfn(it, v, env, ref):
+        from pyvc.sym import VFunc
+        import types
+        if not isinstance(v, VFunc):
+            return False, " (not a function value)"
+        if v.builtin == "pfn":
+            return True, ""
+        if not isinstance(v.fn, types.FunctionType):
+            return False, " (not a library function)"
+        r2 = w.fnref_of(v.fn)
+        c2 = w.contracts.get(r2.qual)
+        if c2 is None or r2.cls is not Parser:
+            return False, " (no parser contract)"
+        me = env.get("self")
+        if v.recv is None or me is None or getattr(v.recv, "oid", None) != getattr(me, "oid", 0):
+            return False, " (bound to another object)"
+        a = r2.node.args
+        npos = len(a.args) - 1 - len(getattr(v, "pre", ()) or ())
+        if npos < 0 or npos > len(a.defaults):
+            return False, " (needs arguments)"
+        ok = (set(c2.raises) <= {"GraphQLSyntaxError"}
+              and set(c2.modifies or ()) <= set(PFRAME)
+              and not c2.requires
+              and all(cl in c2.ensures for cl in TOKLIM))
+        return ok, "" if ok else " (contract weaker than PFN)"
+    w.arg_checks["pfn"] = is_pfn
+
+    # ---- advance_lexer: every non-EOF token is counted once; the limit n accepts counter <= n ----
+    w.contract(f"{P}.Parser.advance_lexer",
+               ensures=TOKLIM + [
+                   "self._token_counter == old(self._token_counter)"
+                   " + ite(self._lexer.token.kind is TokenKind.EOF, 0, 1)",
+                   "implies(self._max_tokens is not None and self._lexer.token.kind is not TokenKind.EOF,"
+                   " self._token_counter <= self._max_tokens)"],
+               raises=["GraphQLSyntaxError"],
+               modifies=list(PFRAME), props={"C09", "C01"})
+
+    special = {
+        "peek": dict(ensures=["result == (self._lexer.token.kind == kind)"]),
+        "expect_token": dict(ensures=["result.kind == kind"]),
+        "parse_name": dict(),
+    }
+    for name, fn in Parser.__dict__.items():
+        if not inspect.isfunction(fn) or name in ("__init__", "advance_lexer"):
+            continue
+        sig = inspect.signature(fn)
+        params = {}
+        for pn in list(sig.parameters)[1:]:
+            if pn not in PARAM_SPECS:
+                raise RuntimeError(f"contracts/parser.py: no spec for parameter {pn} of Parser.{name}")
+            params[pn] = PARAM_SPECS[pn]
+        ann = sig.return_annotation
+        ret = _ret_spec(w, ann if isinstance(ann, str) else getattr(ann, "__name__", ""))
+        sp = special.get(name, {})
+        if name in LOOKERS:
+            w.contract(f"{P}.Parser.{name}", params=params, returns=ret,
+                       ensures=list(sp.get("ensures", [])), raises=[], modifies=[],
+                       props={"C01", "C09"})
+            continue
+        w.contract(f"{P}.Parser.{name}", params=params, returns=ret,
+                   ensures=TOKLIM + list(sp.get("ensures", [])),
+                   raises=["GraphQLSyntaxError"], modifies=list(PFRAME),
+                   loop_all=list(TOKLIM), props={"C01", "C09"})
+
+    # ---- construction and the five entry points -------------------------------------------------
+    SRC = ("union", "str", "obj:Source")
+    w.contract(f"{P}.Parser.__init__",
+               params={"source": SRC, "no_location": "bool", "max_tokens": "opt:int",
+                       "experimental_fragment_arguments": "bool",
+                       "experimental_directives_on_directive_definitions": "bool",
+                       "lexer": "opt:obj:Lexer"},
+               ensures=["self._token_counter == 0", "(self._max_tokens is None) == (max_tokens is None)",
+                        "implies(max_tokens is not None, self._max_tokens == max_tokens)"],
+               raises=[], modifies=["self._no_location", "self._max_tokens", "self._lexer",
+                                    "self._token_counter", "self._experimental_fragment_arguments",
+                                    "self._experimental_directives_on_directive_definitions"],
+               props={"C01", "C09"})
+    ENTRY = {"source": SRC, "no_location": "bool", "max_tokens": "opt:int",
+             "experimental_fragment_arguments": "bool",
+             "experimental_directives_on_directive_definitions": "bool"}
+    for fn in ("parse", "parse_value", "parse_const_value", "parse_type"):
+        w.contract(f"{P}.{fn}", params=dict(ENTRY), returns="ref:Node", ensures=[],
+                   raises=["GraphQLSyntaxError"], props={"C01"})
+    w.contract(f"{P}.parse_schema_coordinate",
+               params={"source": SRC, "no_location": "bool", "max_tokens": "opt:int"},
+               returns="ref:Node", ensures=[], raises=["GraphQLSyntaxError"], props={"C01"})
